@@ -19,7 +19,7 @@ func c20Pool() []replLine {
 	return []replLine{
 		{Print("1 + 2"), true, "print"}, {Print(`"hi"`), true, "print"}, {"1 + 2;", true, "echo"}, {`"s";`, true, "echo"}, {"nil;", true, "echo"}, {True() + ";", true, "echo"},
 		{"[1, 2];", true, "echo"}, {"({k: 1});", true, "echo"}, {"{}", true, "empty-block"}, {BI("len", "[1, 2, 3]") + ";", true, "echo"}, {BI("abs", "-2") + ";", true, "echo"}, {BI("round", "2.5") + ";", true, "echo"},
-		{"1000000;", true, "echo"}, {`"a" + 1;`, true, "echo"},
+		{"1000000;", true, "echo"}, {`"a" + 1;`, true, "echo"}, {`75 + "%";`, true, "echo"}, {`["10%", "%d %s"];`, true, "echo"}, {`"%%";`, true, "echo"},
 		{"@", true, "lexical"}, {`"unterminated`, true, "lexical"}, {"/* open", true, "lexical"}, {Print("1") + " @", true, "lexical"},
 		{"1 +;", true, "syntax"}, {Print("1")[:len(Print("1"))-1], true, "syntax"}, {")", true, "syntax"}, {"{", true, "syntax"}, {"1 = 2;", true, "syntax"},
 		{"1 / 0;", true, "runtime"}, {"নেই;", true, "runtime"}, {"nil.k;", true, "runtime"}, {BI("len", "5") + ";", true, "runtime"}, {Break(), true, "runtime"}, {Ret("1"), true, "runtime"},
